@@ -5,6 +5,8 @@ armi/reactor/grids/locations.py.  Between `_packLocations*` and `_unpackLocation
 dataset (`layout/location`, an N x 3 float64 table read back with `.tolist()`); that transport is the harness
 function `stored` (each packed row -> list of three reals; A1: an int survives the float cast).
 """
+import numpy as np
+
 from spec import *
 
 layout = repo("armi.bookkeeping.db.layout")
@@ -284,3 +286,28 @@ def great_grandparents_from_the_preorder_layout(n: int, shape: int):
     n = choose(n, 1, 6)
     shape = choose(shape, 0, NSHAPES[n] - 1)
     ancestors_of_shape(n, shape, 3)
+
+
+# ----------------------------------------------------------------------------- layout/gridIndex column
+@lemma(gen={"n": [1, 2, 3, 4], "mask": (0, 15), "a": (0, 40), "b": (0, 40), "c": (0, 40), "d": (0, 40)})
+def grid_index_column_round_trips(n: int, mask: int, a: int, b: int, c: int, d: int):
+    """Layout.gridIndex (index into the list of distinct grids, None for an object without a grid) as written by
+    Layout.writeToDB - replaceNonesWithNonsense(np.array(gridIndex)) - and read by Layout._readLayout -
+    replaceNonsenseWithNones: 1..4 objects, EVERY pattern of objects without grid (including none and all), indices
+    symbolic and >= 0 (they index a list): None and index come back position by position"""
+    n = choose(n, 1, 4)
+    mask = choose(mask, 0, 2 ** n - 1)
+    nogrid = [(mask // (2 ** m)) % 2 == 1 for m in range(n)]
+    idx = [a, b, c, d][:n]
+    for v in idx:
+        assume(v >= 0)
+    gridIndex = [None if nogrid[m] else idx[m] for m in range(n)]
+    stored = layout.replaceNonesWithNonsense(np.array(gridIndex), "layout/gridIndex")
+    assert stored.dtype != "O" and stored.shape == (n,), "a plain numeric column, one entry per object"
+    back = layout.replaceNonsenseWithNones(stored, "layout/gridIndex")
+    assert len(back) == n
+    for m in range(n):
+        if nogrid[m]:
+            assert back[m] is None, "an object without grid stays without"
+        else:
+            assert back[m] is not None and eq(back[m], idx[m]), "same grid index"
